@@ -27,5 +27,5 @@ _whole.install(globals(), "C18",
                     "machine replay (flags compared at every boundary) + monitor on real runs.",
                note="Known finding C18/progress/all-active-demes-hibernating stays open (clauses 1+2 and 3 of the property conflict in that state).",
                technique="Coq invariant over all event streams + refutation witness by vm_compute + vm_compute trace replay against the real package",
-               front_ends=["driver"], quick=240, thorough=6000, nontrivial=nontrivial, extra_checks=[sessions],
+               front_ends=["driver", "ctor"], quick=240, thorough=6000, nontrivial=nontrivial, extra_checks=[sessions],
                forces=[(3, {"hibernation": True}), (1, {"hibernation": False}), (2, {"hibernation": True, "height": 3})])
